@@ -2,7 +2,7 @@
    This file contains the property theorems and nothing else; each is closed by `exact` of a lemma
    proved in Proofs/, and its axioms are printed beneath it. *)
 From Coq Require Import List NArith ZArith.
-From FFSM2 Require Import Model.Bits Model.BitStream Proofs.BitsProofs Proofs.BitStreamProofs Model.Cxx Generated.LeafCode Proofs.LeafTactics Proofs.LeafConsts Proofs.LeafCodeProofs.
+From FFSM2 Require Import Model.Bits Model.BitStream Proofs.BitsProofs Proofs.BitStreamProofs Model.Cxx Generated.LeafCode Proofs.LeafTactics Proofs.LeafConsts Proofs.LeafCodeProofs Proofs.LeafCodeWide.
 Import ListNotations.
 Local Open Scope N_scope.
 
@@ -75,6 +75,36 @@ Theorem C13_source_read_is_the_model : forall W c buf,
   = let '(v, c') := read buf c W in Some (Some (Z.of_N v), cursor_fld c', stream_obj buf).
 Proof. exact src_read8. Qed.
 Print Assumptions C13_source_read_is_the_model.
+
+(* The wider item types: W <= 16 (uint16_t) and W <= 32 (uint32_t; shifted at unsigned int, where the shift may wrap). *)
+Theorem C13_source_write16_is_the_model : forall W item c buf,
+  1 <= W <= 16 -> item < 65536 -> c < 256 -> Forall (fun x => x < 256) buf ->
+  c + W <= 8 * N.of_nat (length buf) -> (length buf <= 32)%nat ->
+  result (run leaf_ftable (width_const W) BitWriteStreamT_100__write_12 [Z.of_N item] (cursor_fld c) (stream_obj buf))
+  = let '(buf', c') := write buf c W item in Some (None, cursor_fld c', stream_obj buf').
+Proof. exact src_write16. Qed.
+Print Assumptions C13_source_write16_is_the_model.
+Theorem C13_source_write32_is_the_model : forall W item c buf,
+  1 <= W <= 32 -> item < 4294967296 -> c < 256 -> Forall (fun x => x < 256) buf ->
+  c + W <= 8 * N.of_nat (length buf) -> (length buf <= 32)%nat ->
+  result (run leaf_ftable (width_const W) BitWriteStreamT_100__write_20 [Z.of_N item] (cursor_fld c) (stream_obj buf))
+  = let '(buf', c') := write buf c W item in Some (None, cursor_fld c', stream_obj buf').
+Proof. exact src_write32. Qed.
+Print Assumptions C13_source_write32_is_the_model.
+Theorem C13_source_read16_is_the_model : forall W c buf,
+  1 <= W <= 16 -> c < 256 -> Forall (fun x => x < 256) buf ->
+  c + W <= 8 * N.of_nat (length buf) -> (length buf <= 32)%nat ->
+  result (run leaf_ftable (width_const W) BitReadStreamT_100__read_12 [] (cursor_fld c) (stream_obj buf))
+  = let '(v, c') := read buf c W in Some (Some (Z.of_N v), cursor_fld c', stream_obj buf).
+Proof. exact src_read16. Qed.
+Print Assumptions C13_source_read16_is_the_model.
+Theorem C13_source_read32_is_the_model : forall W c buf,
+  1 <= W <= 32 -> c < 256 -> Forall (fun x => x < 256) buf ->
+  c + W <= 8 * N.of_nat (length buf) -> (length buf <= 32)%nat ->
+  result (run leaf_ftable (width_const W) BitReadStreamT_100__read_20 [] (cursor_fld c) (stream_obj buf))
+  = let '(v, c') := read buf c W in Some (Some (Z.of_N v), cursor_fld c', stream_obj buf).
+Proof. exact src_read32. Qed.
+Print Assumptions C13_source_read32_is_the_model.
 
 (* the hypotheses are satisfiable and the statement is not vacuous: a 3-bit field at offset 5 of a 2-byte buffer *)
 Example C13_nonvacuous :
